@@ -19,6 +19,7 @@ type Ctx struct {
 	typeByID  []types.Type
 	n         int
 	noAbbrev  int // >0: abbreviations disabled (ghost evaluation with placeholders)
+	axioms    []*Term
 }
 
 func NewCtx() *Ctx {
@@ -260,7 +261,7 @@ func (c *Ctx) Zero(t types.Type) *Term {
 		return V("iface_nil", SIfc)
 	case *types.Array:
 		es := c.SortOf(u.Elem())
-		return App("(as const "+ArraySort(SInt, es)+")", ArraySort(SInt, es), c.Zero(u.Elem()))
+		return c.ConstArray(SInt, es, c.Zero(u.Elem()))
 	case *types.Struct:
 		s := c.structSort(t, u)
 		var args []*Term
